@@ -44,7 +44,8 @@ func init() {
 type config struct {
 	n, m      int
 	pred      int  // -1: All
-	placement int  // 0 preprune, 1 prune, 2 both
+	placement int  // 0 preprune, 1 prune, 2 both, 3 pred as preprune and pred2 as prune
+	pred2     int  // index+1 of a second predicate (0 = none): the class searched is the intersection
 	co        bool // the predicate is applied to the complement (complements of hereditary classes are hereditary)
 	big       bool // restricted search at a size where the reference is the harness-owned restricted class generator
 }
@@ -52,6 +53,10 @@ type config struct {
 // predicate returns the (possibly complemented) predicate of the configuration.
 func (cf config) predicate() srch.Pred {
 	p := srch.Preds()[cf.pred]
+	if cf.pred2 > 0 {
+		q := srch.Preds()[cf.pred2-1]
+		return srch.Pred{Name: p.Name + "&" + q.Name, Has: func(g *rg.G) bool { return p.Has(g) && q.Has(g) }}
+	}
 	if !cf.co {
 		return p
 	}
@@ -62,11 +67,29 @@ func (cf config) name() string {
 	if cf.pred < 0 {
 		return fmt.Sprintf("All-n%d-m%d", cf.n, cf.m)
 	}
-	return fmt.Sprintf("Pruned-n%d-m%d-%s-%s", cf.n, cf.m, cf.predicate().Name, []string{"preprune", "prune", "both"}[cf.placement])
+	return fmt.Sprintf("Pruned-n%d-m%d-%s-%s", cf.n, cf.m, cf.predicate().Name, []string{"preprune", "prune", "both", "first-as-preprune-second-as-prune"}[cf.placement])
 }
 
 func (cf config) stream() string {
 	return strings.NewReplacer("<=", "le", " ", "").Replace(cf.name())
+}
+
+// predRunner.prune is srch.AsPrune as a method: method values of different receivers are different functions that
+// share one piece of code.
+type predRunner struct {
+	p     srch.Pred
+	calls *int
+	bad   *string
+}
+
+func (r predRunner) prune(g *graph.DenseGraph) bool {
+	*r.calls++
+	if *r.calls%16 == 1 && *r.bad == "" {
+		if msg := rg.WellFormed(g); msg != "" {
+			*r.bad = msg
+		}
+	}
+	return !r.p.Has(rg.FromGraph(g))
 }
 
 // runShard drives one iterator to exhaustion, recording every value.
@@ -86,6 +109,12 @@ func runShard(c *engine.Ctx, cf config, a int) {
 			}
 			if cf.placement == 1 || cf.placement == 2 {
 				pru = srch.AsPrune(p, &calls, &bad)
+			}
+			if cf.placement == 3 {
+				// two DIFFERENT hereditary predicates: the first as preprune, the second as prune
+				// (handed over as METHOD VALUES of one type with two receivers: the two functions then share their code)
+				pre = predRunner{srch.Preds()[cf.pred], &calls, &bad}.prune
+				pru = predRunner{srch.Preds()[cf.pred2-1], &calls, &bad}.prune
 			}
 			it = search.WithPruning(cf.n, a, cf.m, pre, pru)
 		}
@@ -168,31 +197,50 @@ func configs(thorough bool) []config {
 	ms := []int{1, 2, 3, 4, 5, 7, 16}
 	for n := 0; n <= 8; n++ {
 		for _, m := range ms {
-			r = append(r, config{n, m, -1, 0, false, false})
+			r = append(r, config{n: n, m: m, pred: -1, placement: 0, co: false, big: false})
 		}
 	}
 	if thorough {
 		for _, m := range ms {
-			r = append(r, config{9, m, -1, 0, false, false})
+			r = append(r, config{n: 9, m: m, pred: -1, placement: 0, co: false, big: false})
 		}
-		r = append(r, config{10, 1, -1, 0, false, false}, config{10, 16, -1, 0, false, false})
+		r = append(r, config{n: 10, m: 1, pred: -1, placement: 0, co: false, big: false}, config{n: 10, m: 16, pred: -1, placement: 0, co: false, big: false})
 	} else {
-		r = append(r, config{9, 1, -1, 0, false, false}, config{9, 4, -1, 0, false, false})
+		r = append(r, config{n: 9, m: 1, pred: -1, placement: 0, co: false, big: false}, config{n: 9, m: 4, pred: -1, placement: 0, co: false, big: false})
 	}
 	np := len(srch.Preds())
 	for p := 0; p < np; p++ {
 		for pl := 0; pl < 3; pl++ {
 			for _, n := range []int{0, 1, 2, 3, 4, 5, 6, 7} {
-				r = append(r, config{n, 1, p, pl, false, false})
+				r = append(r, config{n: n, m: 1, pred: p, placement: pl, co: false, big: false})
 			}
-			r = append(r, config{7, 3, p, pl, false, false})
+			r = append(r, config{n: 7, m: 3, pred: p, placement: pl, co: false, big: false})
 			planar := srch.Preds()[p].Name == "planar"
 			if !planar || thorough {
-				r = append(r, config{8, 1, p, pl, false, false}, config{8, 4, p, pl, false, false})
+				r = append(r, config{n: 8, m: 1, pred: p, placement: pl, co: false, big: false}, config{n: 8, m: 4, pred: p, placement: pl, co: false, big: false})
 			}
 			if thorough && !planar {
-				r = append(r, config{9, 1, p, pl, false, false}, config{9, 5, p, pl, false, false})
+				r = append(r, config{n: 9, m: 1, pred: p, placement: pl, co: false, big: false}, config{n: 9, m: 5, pred: p, placement: pl, co: false, big: false})
 			}
+		}
+	}
+	// two different predicates at once (the output is the intersection of the two classes)
+	for _, pq := range [][2]string{{"triangle-free", "maxdeg<=3"}, {"maxdeg<=2", "forest"}, {"C4-free", "bipartite"}, {"claw-free", "K4-free"}, {"cograph", "triangle-free"}, {"order<=3", "planar"}, {"K4-free", "no-graph"}} {
+		pi, qi := -1, -1
+		for i, p := range srch.Preds() {
+			if p.Name == pq[0] {
+				pi = i
+			}
+			if p.Name == pq[1] {
+				qi = i
+			}
+		}
+		for _, n := range []int{0, 1, 3, 5, 6, 7} {
+			r = append(r, config{n: n, m: 1, pred: pi, placement: 3, pred2: qi + 1}, config{n: n, m: 1, pred: qi, placement: 3, pred2: pi + 1})
+		}
+		r = append(r, config{n: 7, m: 3, pred: pi, placement: 3, pred2: qi + 1})
+		if thorough {
+			r = append(r, config{n: 8, m: 2, pred: pi, placement: 3, pred2: qi + 1}, config{n: 8, m: 1, pred: qi, placement: 3, pred2: pi + 1})
 		}
 	}
 	// restricted searches beyond the sizes where the whole class list is available: sparse hereditary classes and
@@ -455,7 +503,9 @@ func dedupe(vals []rec) (dups [][2]int, invs []uint64) {
 		}()
 	}
 	wg.Wait()
-	sort.Slice(dups, func(i, j int) bool { return dups[i][0] < dups[j][0] || (dups[i][0] == dups[j][0] && dups[i][1] < dups[j][1]) })
+	sort.Slice(dups, func(i, j int) bool {
+		return dups[i][0] < dups[j][0] || (dups[i][0] == dups[j][0] && dups[i][1] < dups[j][1])
+	})
 	return dups, invs
 }
 
